@@ -90,7 +90,7 @@ def main():
         res['confirmed'] = bool(res['demo_clean_passes'] and res['patch_applies'] and res['suite_passes_with_patch'] and res['demo_fails_with_patch'])
         checks = {}
         for p in props:
-            envc = dict(os.environ, VERIF_REPO=scratch, VERIF_TIER=tier)
+            envc = dict(os.environ, VERIF_REPO=scratch, VERIF_TIER=tier, VERIF_JOBS=os.environ.get('VERIF_JOBS', '6'))
             rc, out = sh(['./check', p, '--tier', tier], cwd=VERIF, env=envc, timeout=7200)
             lines = [l for l in out.split('\n') if l.startswith(('VIOLATION', 'UNDECIDED', 'KNOWN-FINDING', '['))]
             checks[p] = {'exit': rc, 'lines': [l[:300] for l in lines if not l.startswith('KNOWN-FINDING')][:12]}
